@@ -1205,10 +1205,10 @@ def main(res, tier, rng, replay):
     stream_behav(pipe, res, rng.fork('behav'), tier)
     stream_params(pipe, res, rng.fork('params'), tier)
     pipe.maybe_flush()
-    stream_lib(pipe, res, rng.fork('lib'), 6 if q else 200)
-    stream_multi(pipe, res, rng.fork('multi'), 4 if q else 150)
-    stream_gv(pipe, res, rng.fork('gv'), 150 if q else 8000, 80 if q else 3000)
-    stream_hier(pipe, res, rng.fork('hier'), 80 if q else 3000)
+    stream_lib(pipe, res, rng.fork('lib'), 6 if q else 160)
+    stream_multi(pipe, res, rng.fork('multi'), 4 if q else 120)
+    stream_gv(pipe, res, rng.fork('gv'), 150 if q else 6000, 80 if q else 2500)
+    stream_hier(pipe, res, rng.fork('hier'), 80 if q else 2500)
     pipe.flush()
     res.cov['designs'] = pipe.n_designs
     res.cov['emit_theorem_coverage'] = pipe.emitcov.summary()
